@@ -184,6 +184,8 @@ pub struct World {
     pub block_ready: bool,
     /// while > 0 the next Service::call of the wrapped service panics (before anything is logged)
     pub call_panic: usize,
+    /// the wrapped service takes this many ms *inside Service::call* (the paused clock is moved synchronously)
+    pub call_delay: u64,
     pub clock0: tokio::time::Instant,
 }
 impl World {
@@ -199,6 +201,7 @@ impl World {
             auto: None,
             block_ready: false,
             call_panic: 0,
+            call_delay: 0,
             clock0: tokio::time::Instant::now(),
         }
     }
@@ -269,6 +272,18 @@ impl tower::Service<Req> for Inner {
             g.call_panic -= 1;
             drop(g);
             panic!("injected panic in Service::call of the wrapped service");
+        }
+        if g.call_delay > 0 {
+            // tokio::time::advance moves the paused clock in its synchronous first part (before its yield): one poll of it
+            // is "time passing inside a synchronous call"
+            let d = g.call_delay;
+            drop(g);
+            let mut f = Box::pin(tokio::time::advance(Duration::from_millis(d)));
+            let w = futures::task::noop_waker();
+            let mut cx = Context::from_waker(&w);
+            let _ = f.as_mut().poll(&mut cx);
+            drop(f);
+            g = self.w.lock().unwrap();
         }
         let i = g.gates.len() + 1;
         let inst = self.inst;
